@@ -105,7 +105,7 @@ theorem proposer_change_classified (p : Params) (hp : 0 < p.noticePeriod) (ops :
     (∃ m q, o = .update m ∧ m.ra = id ∧ m.last = true ∧ r.proposer = some m.sender ∧
         getSeq (run p ops) m.sender = some q ∧ noticeElapsed q (run p ops).t = true ∧ r'.proposer = r.successor) ∨
     (∃ a k pa pq, o = .kick a ∧ getSeq (run p ops) a = some k ∧ k.bonded = true ∧ k.optedIn = true ∧ k.rollapp = id ∧
-        r.proposer = some pa ∧ a ≠ pa ∧ getSeq (run p ops) pa = some pq ∧ (run p ops).p.kickThr ≤ pq.dishonor ∧
+        r.proposer = some pa ∧ a ≠ pa ∧ getSeq (run p ops) pa = some pq ∧ (run p ops).sqp.kickThr ≤ pq.dishonor ∧
         r'.proposer = choose s' id ∧ r'.proposer.isSome = true) ∨
     (r'.proposer = none ∧
         ((∃ au hh rev pun rw, o = .fraud au id hh rev pun rw) ∨ (∃ au vs, o = .obsolete au vs))) ∨
@@ -323,6 +323,23 @@ theorem punished_proposer_stays_proposer (p : Params) (hp : 0 < p.noticePeriod) 
     rw [hq] at hq0; injection hq0 with hq0; subst hq0
     exact ⟨by rw [hras]; exact hr, _, hq', rfl, hb, hro⟩
 
+-- ---------------------------------------------------------------- x/sequencer parameters as state
+
+/-- **seq_params_change_only_by_authority** — an accepted x/sequencer `MsgUpdateParams` came from the
+    governance authority, carries a positive notice period and a non-zero kick threshold, and replaces the
+    stored x/sequencer parameter set and nothing else (records keep the notice times they were given, no
+    role, bond or queue changes). -/
+theorem seq_params_change_only_by_authority (s s' : St) (au : Bool) (sp : SeqParams)
+    (h : apply s (.setSeqParams au sp) = .ok s') :
+    au = true ∧ 0 < sp.noticePeriod ∧ 0 < sp.kickThr ∧ s' = { s with sqp := sp } :=
+  setSeqParams_ok (show setSeqParams s au sp = .ok s' from h)
+
+/-- **the notice period in force is positive in every reachable state**, whatever parameter updates the
+    history contains (the initial set is validated, every update is) — the hypothesis the roles invariant
+    needs of `unbond` (`run_roles` is proved with the parameters as state). -/
+theorem notice_period_in_force_positive (p : Params) (hp : 0 < p.noticePeriod) (ops : List Op) :
+    0 < (run p ops).sqp.noticePeriod := (run_roles p hp ops).core.np
+
 -- ---------------------------------------------------------------- non-vacuity and the role of the parameter validation
 
 def exParams : Params where
@@ -391,5 +408,15 @@ def np0Ops : List Op := [.createRollapp 0 9 10, .fund 1 100, .fund 2 100, .creat
   .optIn 2 true, .begin_ 1]
 theorem roles_np0_counterexample :
     ((run np0Params np0Ops).ras.map fun r => (r.proposer, r.successor)) = [(some 2, some 2)] := by decide
+
+/-- a proposer that serves notice gets the notice period IN FORCE at that moment: a later parameter
+    update does not move a notice that has started -/
+def exParamUpd : St := run exParams (exRotation.dropLast.dropLast ++
+      [.setSeqParams true { exParams.seq with noticePeriod := 3 }, .unbond 1, .setSeqParams true { exParams.seq with noticePeriod := 100 }])
+example : (getSeq exParamUpd 1).map (·.notice) = some (some 3) ∧ exParamUpd.sqp.noticePeriod = 100 ∧ exParamUpd.nq = [(3, 1)] := by decide
+example : (step (run exParams []) (.setSeqParams false exParams.seq)).2 = some .unauthorized ∧
+    (step (run exParams []) (.setSeqParams true { exParams.seq with noticePeriod := 0 })).2 = some .invalid ∧
+    (step (run exParams []) (.setSeqParams true { exParams.seq with kickThr := 0 })).2 = some .invalid ∧
+    (step (run exParams []) (.setSeqParams true { exParams.seq with lsMul := ⟨1000000000000000001⟩ })).2 = some .invalid := by decide
 
 end DymVerif.C07
